@@ -328,14 +328,22 @@ FILL = {
 }
 
 
+NA_BASE = dict({k: v[0] for k, v in BASE.items()}, object=[1, "a", 2.5, b"x"])
+FILL["object"] = [("same", "fill"), ("none", None)]
+
+
 def unit_na(unit):
     from serif import Vector
     _, kind, N = unit
     agg = Agg()
     for n in range(1, N + 1):
-        base = BASE[kind][0][:n]
+        base = NA_BASE[kind][:n]
         for m in masks(n):
             xs = with_none(base, m)
+            if kind == "object":
+                sch = Vector(xs).schema()
+                if sch is None or sch.kind is not object or all(e is None for e in xs):
+                    continue    # not an object (mixed) vector any more; covered by the typed kinds
             agg.states += 1
             if any(m) and not all(m):
                 agg.nontrivial += 1
@@ -401,12 +409,53 @@ def unit_na(unit):
                         agg.outcomes["fillna-agree"] += 1
                 if obs(v) != b:
                     agg.violation(V("na-ops", "operand-modified", case))
+                # subsets taken AFTER isna()/dropna() were called on the parent must answer for themselves
+                if name is None and n >= 2:
+                    subsets = [("tail", lambda x: x[1:], xs[1:]), ("reversed", lambda x: x[::-1], xs[::-1]),
+                               ("non-null", lambda x: x[[e is not None for e in xs]], [e for e in xs if e is not None]),
+                               ("copy", lambda x: x.copy(), list(xs))]
+                    for sl_name, take, want_vals in subsets:
+                        agg.evals += 1; agg.transitions += 3; agg.compared += 1
+                        c3 = dict(case, history=["isna/dropna on parent", f"take {sl_name}", "isna/dropna/fillna on the subset"])
+                        try:
+                            p = Vector(xs)
+                            p.isna(); p.dropna()
+                            sub = take(p)
+                            gi2 = vec_list(sub.isna())
+                            gd2 = vec_list(sub.dropna())
+                        except Exception as e:
+                            agg.violation(V(f"isna.after-subset.{sl_name}", "raises-" + type(e).__name__, c3, None, repr(e)[:80]))
+                            continue
+                        if gi2 != [e is None for e in want_vals]:
+                            agg.violation(V(f"isna.after-subset.{sl_name}", "subset-answers-with-parents-none-positions", c3, [e is None for e in want_vals], gi2))
+                        elif gd2 is None or not same_list(gd2, [e for e in want_vals if e is not None]):
+                            agg.violation(V(f"dropna.after-subset.{sl_name}", "does-not-match-isna", c3, [e for e in want_vals if e is not None], gd2))
+                        else:
+                            agg.outcomes["subset-na-agree"] += 1
     agg.sample({"isna/dropna/fillna": kind, "N": N})
     return agg
 
 
+def unit_groups(unit):
+    """per-group aggregates skip None (reuses the reference grouping of C12 on a small space)"""
+    import hashlib
+    from mc import groupspace as gs
+    from props import c12
+    _, kind, n = unit
+    agg = Agg()
+    h = hashlib.sha256()
+    for keys, vals in gs.cases((kind, 1, n, None, "full")):
+        agg.states += 1
+        if None in vals and any(v is not None for v in vals):
+            agg.nontrivial += 1
+        for menu in ("all6", "sum", "count"):
+            c12.check_aggregate(agg, h, kind, 1, "name", keys, vals, menu)
+    agg.outcomes["group-agree"] = agg.outcomes.pop("agree", 0)
+    return agg
+
+
 def run_unit(unit):
-    return {"arith": unit_arith, "cmp": unit_compare, "red": unit_reduce, "na": unit_na}[unit[0]](unit)
+    return {"arith": unit_arith, "cmp": unit_compare, "red": unit_reduce, "na": unit_na, "grp": unit_groups}[unit[0]](unit)
 
 
 def check(ctx):
@@ -414,7 +463,8 @@ def check(ctx):
     units = [("arith", a, b, N) for a, b in PAIRS]
     units += [("cmp", k, N) for k in BASE]
     units += [("red", k, N + 1) for k in BASE]
-    units += [("na", k, N + 1) for k in BASE]
+    units += [("na", k, N + 1) for k in list(BASE) + ["object"]]
+    units += [("grp", "str", n) for n in range(1, 4)]
     agg = core.merge_all(core.pmap(run_unit, units))
     agg.notes["bound"] = f"arith/compare operands len<={N}, reductions and na-ops len<={N+1}, every None subset"
     agg.notes["exhaustive"] = True
